@@ -88,3 +88,9 @@ Definition zalign_shapes o (ps : seq zparr) := @align_shapes ZR o ps.
 Definition zalign_indets (ps : seq zparr) : res (seq zparr) := Ok (@align_indets ZR ps).
 Definition zalign_expons (ps : seq zparr) : res (seq zparr) := Ok (@align_expons ZR ps).
 Definition zalign_polys o (ps : seq zparr) := @align_polys ZR o ps.
+
+(* ---- derivative (C06) --------------------------------------------------------------------- *)
+From NP Require Import Deriv.
+Definition zderivative o (p : zparr) (vs : seq nat) : res zparr := @derivative ZR o p vs.
+Definition zgradient o (p : zparr) : res zparr := @gradient ZR o p.
+Definition zhessian o (p : zparr) : res zparr := @hessian ZR o p.
